@@ -629,12 +629,12 @@ def outcome : Scenario → Outcome
   /- props/element.rs: the index is intersected with `[0, n-1]`, an empty intersection fails -/
   | .elem n lo hi _ =>
     ⟨none, if (if lo > 0 then lo else 0) ≤ (if hi < (n : Int) - 1 then hi else (n : Int) - 1) then .sol else .noSolution⟩
-  /- factory_internal.rs `add_memory_usage` / `new_var_unchecked` (dummy `VarId(0)`), then
-     validation.rs "domain is too large" -/
+  /- factory_internal.rs `add_memory_usage` / `new_var_unchecked` (the dummy `VarId(0)` names a
+     placeholder variable when the rejected variable was the first one: fix 39d3272; it used to
+     be dereferenced on an empty model), then validation.rs "domain is too large" -/
   | .mem limit lo hi post first =>
     ⟨none,
-      if post ∧ first ∧ memXRejected limit lo hi first then .panic
-      else if memExceeded limit lo hi post first then .err .memoryLimit
+      if memExceeded limit lo hi post first then .err .memoryLimit
       else if hi - lo + 1 > maxDomainSize then .err .invalidDomain
       else .sol⟩
   /- props/table.rs constructor assertion -/
@@ -671,8 +671,6 @@ def Outcome.surfaced (o : Outcome) : Bool :=
 def isFinding : Scenario → Bool
   | .boundsEq lo hi | .boundsUse lo hi => decide (lo > hi)        -- empty-domain-view-panic
   | .linLen nc nv _ true => nc != nv                              -- lin-reif-length-unchecked
-  | .mem limit lo hi true true => memXRejected limit lo hi true
-                                                                   -- memory-limit-dummy-varid-panic
   | _ => false
 
 /-- rendering for the line protocol; `iter` = `enumerate` / `*_and_iterate` (errors become the
